@@ -244,6 +244,111 @@ fn corpus_roundtrip(seed: u64) -> Result<u64, String> {
     Ok(n)
 }
 
+/// Crash and restart at EVERY point of an accumulation history. A seeded stream of records is
+/// fed one by one to a never-restarted state and to a state that goes through the durable store
+/// (serialize, drop, deserialize) before every single append; after every append the two must be
+/// bit-identical. The streams are of the kind that puts a running total exactly on a boundary
+/// (a power of two, an exact cancellation) with a rounding residue pending: decimal grids, and a
+/// record aimed at the next power of two above the running total every few steps. A checkpoint
+/// taken one append earlier or later than such an instant is innocent, so the instants are
+/// enumerated rather than sampled. Executed at the start of every 64th run (offset 32), so it is
+/// part of a replayable trace like the value corpus.
+fn restart_at_every_point(seed: u64) -> Result<u64, String> {
+    macro_rules! sweep {
+        ($F:ty, $json:expr, $tag:expr) => {{
+            let mut r = Rng::new(mix(seed, concat!("restart-at-every-point/", $tag), 0));
+            let fam = r.below(5);
+            let len = 300 + r.below(900) as usize;
+            let scale = (2.0 as $F).powi(r.range(-12, 12) as i32);
+            let mut naive: $F = 0.0;
+            let mut ar_a = Arithmetic::<$F>::new();
+            let mut ar_b = Arithmetic::<$F>::new();
+            let mut ge_a = Geometric::<$F>::new();
+            let mut ge_b = Geometric::<$F>::new();
+            let mut ha_a = Harmonic::<$F>::new();
+            let mut ha_b = Harmonic::<$F>::new();
+            let mut pa_a = Paired::<$F>::default();
+            let mut pa_b = Paired::<$F>::default();
+            let mut ka_a = stats_ci::utils::KahanSum::<$F>::default();
+            let mut ka_b = stats_ci::utils::KahanSum::<$F>::default();
+            let mut n = 0u64;
+            for step in 0..len {
+                let mut x: $F = match fam {
+                    0 => (1 + r.below(99)) as $F / 100.0,
+                    1 => (1 + r.below(999)) as $F / 1000.0 * scale,
+                    2 => 0.1 * (1 + r.below(20)) as $F,
+                    3 => (1 + r.below(9)) as $F / 10.0 * scale,
+                    _ => (r.unit() as $F + 1e-3) * scale,
+                };
+                if r.chance(0.2) && naive > 0.0 {
+                    // aim the running total at the next power of two, give or take a residue
+                    let target = (2.0 as $F).powf(naive.log2().ceil());
+                    let d = target - naive;
+                    if d > 0.0 && d.is_finite() {
+                        x = d * (1.0 + (r.unit() as $F - 0.5) * <$F>::EPSILON * 4.0);
+                    }
+                }
+                if !(x > 0.0) || !x.is_finite() {
+                    x = scale;
+                }
+                // mixed signs for the registers that accept them: exact cancellations to zero
+                let signed = if fam % 2 == 1 && r.chance(0.3) { -x } else { x };
+                naive += x;
+                macro_rules! through_store {
+                    ($b:ident, $what:expr) => {{
+                        let bytes = wire::to_bytes(&$b).map_err(|e| format!("{} serialize at step {step}: {e}", $what))?;
+                        $b = wire::from_bytes(&bytes).map_err(|e| format!("{} deserialize at step {step}: {e}", $what))?;
+                        if $json && step % 2 == 0 {
+                            let js = serde_json::to_vec(&$b).map_err(|e| format!("{} json serialize at step {step}: {e}", $what))?;
+                            $b = serde_json::from_slice(&js).map_err(|e| format!("{} json deserialize at step {step}: {e}", $what))?;
+                        }
+                        n += 1;
+                    }};
+                }
+                through_store!(ar_b, "Arithmetic");
+                through_store!(ge_b, "Geometric");
+                through_store!(ha_b, "Harmonic");
+                through_store!(pa_b, "Paired");
+                through_store!(ka_b, "KahanSum");
+                ar_a.append(signed).map_err(|e| e.to_string())?;
+                ar_b.append(signed).map_err(|e| e.to_string())?;
+                ge_a.append(x).map_err(|e| e.to_string())?;
+                ge_b.append(x).map_err(|e| e.to_string())?;
+                ha_a.append(x).map_err(|e| e.to_string())?;
+                ha_b.append(x).map_err(|e| e.to_string())?;
+                pa_a.append_pair(signed, x * 0.5).map_err(|e| e.to_string())?;
+                pa_b.append_pair(signed, x * 0.5).map_err(|e| e.to_string())?;
+                ka_a += signed;
+                ka_b += signed;
+                macro_rules! same {
+                    ($a:ident, $b:ident, $what:expr) => {{
+                        let (fa, fb) = (format!("{:?}", $a), format!("{:?}", $b));
+                        if fa != fb {
+                            return Err(format!(
+                                "{}<{}> restarted before each of the first {} appends of a {} stream holds {fb}, the never-restarted state holds {fa}",
+                                $what,
+                                $tag,
+                                step + 1,
+                                ["two-decimal", "three-decimal scaled", "tenths", "one-decimal scaled", "uniform"][fam as usize]
+                            ));
+                        }
+                    }};
+                }
+                same!(ar_a, ar_b, "Arithmetic");
+                same!(ge_a, ge_b, "Geometric");
+                same!(ha_a, ha_b, "Harmonic");
+                same!(pa_a, pa_b, "Paired");
+                same!(ka_a, ka_b, "KahanSum");
+            }
+            n
+        }};
+    }
+    let mut n = 0;
+    n += sweep!(f64, true, "f64");
+    n += sweep!(f32, false, "f32");
+    Ok(n)
+}
+
 /// one state through both encoders: identical Debug fingerprint and equal under PartialEq
 fn state_rt<S>(s: &S, json_ok: bool) -> Result<(), String>
 where
@@ -339,6 +444,12 @@ pub fn exec<M: Ckpt>(tr: &Trace, stats: &mut Stats) -> (Vec<Violation>, Reach, V
         match corpus_roundtrip(tr.verif_seed ^ tr.run_index) {
             Ok(n) => stats.add("corpus_value_roundtrips", n),
             Err(e) => fail!("value-round-trip", 0, e),
+        }
+    }
+    if tr.run_index % 64 == 32 {
+        match restart_at_every_point(tr.verif_seed ^ tr.run_index) {
+            Ok(n) => stats.add("restarts_at_every_point_of_a_history", n),
+            Err(e) => fail!("restart-at-every-point", 0, e),
         }
     }
     for ev in &tr.events {
